@@ -395,6 +395,7 @@ std::string sqf::fileio::impl_default::read_file(sqf::runtime::fileio::pathinfo 
     else
     {
         auto res = sqf::runtime::fileio::read_file_from_disk(info.physical);
-        return *res;
+        // The file may have vanished (or turned out to be a directory) since it was resolved
+        return res.has_value() ? *res : std::string{};
     }
 }
